@@ -781,6 +781,86 @@ var largeProp = vp.Register(vp.Prop[LargeCase]{
 
 func TestSetLarge(t *testing.T) { vp.Run(t, largeProp) }
 
+// NearCase: two sets of up to a few hundred values that are equal, or differ in
+// exactly one element at a chosen position of the sorted order, or differ by
+// one element more.  Equal must agree with the element-wise comparison in both
+// directions (a comparison that samples or strides misses single differences
+// at particular positions).
+type NearCase struct {
+	Impl string `json:"impl"`
+	N    int    `json:"n"`
+	At   int    `json:"at"`   // position (modulo N) of the differing element
+	Mode int    `json:"mode"` // 0 identical, 1 one element replaced, 2 one element removed, 3 one element added
+}
+
+func checkNear(c NearCase) error {
+	at := 0
+	if c.N > 0 {
+		at = ((c.At % c.N) + c.N) % c.N
+	}
+	vals := make([]int, c.N)
+	for i := range vals {
+		vals[i] = 2 * i
+	}
+	var eqAB, eqBA, eqAA bool
+	var lenB int
+	if c.Impl == "sorted-int" {
+		a := container.NewSortedSliceSet(vals...)
+		b := a.Clone()
+		switch c.Mode {
+		case 1:
+			b.Delete(2 * at)
+			b.Add(2*at + 1)
+		case 2:
+			b.Delete(2 * at)
+		case 3:
+			b.Add(2*at + 1)
+		}
+		eqAB, eqBA, eqAA, lenB = a.Equal(b), b.Equal(a), a.Equal(a.Clone()), b.Len()
+	} else {
+		a := container.NewMapSet(vals...)
+		b := a.Clone()
+		switch c.Mode {
+		case 1:
+			b.Delete(2 * at)
+			b.Add(2*at + 1)
+		case 2:
+			b.Delete(2 * at)
+		case 3:
+			b.Add(2*at + 1)
+		}
+		eqAB, eqBA, eqAA, lenB = a.Equal(b), b.Equal(a), a.Equal(a.Clone()), b.Len()
+	}
+	want := c.Mode == 0 || (c.N == 0 && c.Mode == 2) // (removing from the empty set changes nothing)
+	if eqAB != want || eqBA != want || !eqAA {
+		return fmt.Errorf("%s: a = {0, 2, ..., %d} (%d values), b = a with mode %d at sorted position %d (%d values): a.Equal(b) = %v, b.Equal(a) = %v, want %v; a.Equal(clone of a) = %v, want true", c.Impl, 2*(c.N-1), c.N, c.Mode, at, lenB, eqAB, eqBA, want, eqAA)
+	}
+	vp.Class("near")
+	if c.N >= 65 && c.Mode == 1 {
+		vp.Class("near:>=65-values-one-replaced")
+	}
+	vp.NonTrivialStr("c11.set-near", fmt.Sprint(c))
+	vp.Sample("near", c)
+	return nil
+}
+
+var nearProp = vp.Register(vp.Prop[NearCase]{
+	Kind: "c11.set-near", Base: 6000,
+	Gen: func(t *rapid.T) NearCase {
+		n := rapid.OneOf(rapid.IntRange(0, 300), rapid.SampledFrom([]int{63, 64, 65, 66, 127, 128, 129, 130, 191, 192, 193, 200, 255, 256, 257, 1000, 4097})).Draw(t, "n")
+		at := rapid.OneOf(rapid.IntRange(0, max(n-1, 0)), rapid.SampledFrom([]int{0, n - 1, n / 2, 64 * (n / 64), 64*(n/64) - 1, 64*(n/64) + 1, 64, 63, 32, 16, 8})).Draw(t, "at")
+		return NearCase{
+			Impl: rapid.SampledFrom([]string{"mapset-int", "sorted-int", "sorted-int"}).Draw(t, "impl"),
+			N:    n,
+			At:   at,
+			Mode: rapid.SampledFrom([]int{0, 1, 1, 1, 2, 3}).Draw(t, "mode"),
+		}
+	},
+	Check: checkNear,
+})
+
+func TestSetNear(t *testing.T) { vp.Run(t, nearProp) }
+
 // TestRingManyPushes (thorough tier, 32-bit variant only): more pushes into
 // one buffer than a uint can count there (2^32 + 5), then the usual
 // observations.  "The last min(k, n) values pushed" has no upper bound on k.
